@@ -7,6 +7,8 @@ import (
 	"math/rand"
 	"net"
 	"strings"
+	"sync"
+	"sync/atomic"
 	"time"
 
 	"github.com/mosaicnetworks/babble/src/config"
@@ -252,6 +254,30 @@ func runC08TCP(cs CaseSpec) *CaseResult {
 			}
 		}
 	}
+	// concurrent phase: many connections at once deliver validly self-signed
+	// join requests by strangers (the application refuses them), valid sync
+	// requests and hostile ones; the handlers run side by side in the victim
+	if int(cs.I("flood", 1)) == 1 {
+		n := floodVictim(addr, cs.Seed*7919+int64(cs.Index), ln, underRace)
+		res.count("hostile_tcp_requests_delivered_over_concurrent_connections", int64(n))
+		res.Evaluations += int64(n)
+		// pending join handlers give up after the join timeout
+		time.Sleep(2500 * time.Millisecond)
+		var resp bnet.SyncResponse
+		var err error
+		for try := 0; try < 5; try++ {
+			err = ln.Nodes[1].Trans.Sync(addr, &bnet.SyncRequest{FromID: ln.Nodes[1].Peer.ID(), Known: map[uint32]int{}, SyncLimit: 10}, &resp)
+			if err == nil {
+				break
+			}
+			time.Sleep(500 * time.Millisecond)
+		}
+		res.count("liveness_probes_after_hostile_input", 1)
+		if err != nil {
+			timing("C08:valid-exchange-fails-after-hostile-input", fmt.Sprintf("after %d requests over concurrent connections a valid SyncRequest is no longer answered (5 attempts): %v", n, err))
+			return res
+		}
+	}
 	for idx, want := range before {
 		b, err := victim.Node.GetBlock(idx)
 		if err != nil || normBody(b.Body) != want {
@@ -269,4 +295,63 @@ func runC08TCP(cs CaseSpec) *CaseResult {
 	res.digest("c08tcp", cs.Seed, cs.Index, len(streams))
 	res.Sample = map[string]interface{}{"kind": "hostile TCP streams", "streams": len(streams), "example": fmt.Sprintf("%q", trunc(string(streams[len(streams)-1]), 200))}
 	return res
+}
+
+// floodVictim opens many connections at once and writes requests without
+// waiting for the answers. Returns the number of requests written.
+func floodVictim(addr string, seed int64, ln *liveNet, underRace bool) int {
+	// many connections at the same instant, few requests each: the point is
+	// handlers running side by side, not volume (every accepted join request
+	// becomes an internal transaction that the network has to commit)
+	conns, per := 96, 4
+	if underRace {
+		conns, per = 32, 4
+	}
+	var wg sync.WaitGroup
+	var total int64
+	for c := 0; c < conns; c++ {
+		c := c
+		wg.Add(1)
+		go func() {
+			defer wg.Done()
+			rng := rand.New(rand.NewSource(seed*1000 + int64(c)))
+			for k := 0; k < per; k++ {
+				var payload []byte
+				switch k % 4 {
+				case 0, 1, 2:
+					// a stranger's validly signed join request; the application refuses
+					// monikers that start with "refuse"
+					key := detKey(seed, "flood-joiner", c*10000+k)
+					p := mkPeer(key, fmt.Sprintf("127.0.0.1:%d", 20000+rng.Intn(20000)), fmt.Sprintf("refuse-flood-%d-%d", c, k))
+					itx := hg.NewInternalTransactionJoin(*p)
+					if err := itx.Sign(key); err != nil {
+						continue
+					}
+					jb, err := json.Marshal(&bnet.JoinRequest{InternalTransaction: itx})
+					if err != nil {
+						continue
+					}
+					payload = append([]byte{0}, append(jb, '\n')...)
+				default:
+					jb, _ := json.Marshal(&bnet.SyncRequest{FromID: ln.Nodes[1].Peer.ID(), Known: map[uint32]int{}, SyncLimit: 5})
+					payload = append([]byte{1}, append(jb, '\n')...)
+				}
+				conn, err := net.DialTimeout("tcp", addr, 2*time.Second)
+				if err != nil {
+					time.Sleep(5 * time.Millisecond)
+					continue
+				}
+				conn.SetDeadline(time.Now().Add(50 * time.Millisecond))
+				conn.Write(payload)
+				if k%8 == 7 {
+					buf := make([]byte, 512)
+					conn.Read(buf)
+				}
+				conn.Close()
+				atomic.AddInt64(&total, 1)
+			}
+		}()
+	}
+	wg.Wait()
+	return int(atomic.LoadInt64(&total))
 }
